@@ -238,9 +238,12 @@ class Ctx:
             )
         return self._pool
 
-    def close(self):
+    def close(self, graceful=False):
         if self._pool is not None:
-            self._pool.terminate()
+            if graceful:
+                self._pool.close()
+            else:
+                self._pool.terminate()
             self._pool.join()
             self._pool = None
 
@@ -299,7 +302,7 @@ class Ctx:
 
     # -- finish ----------------------------------------------------------- #
     def finish(self):
-        self.close()
+        self.close(graceful=True)
         known = load_known()
         open_keys = {
             f["key"]: f for f in known.get("findings", [])
